@@ -327,6 +327,14 @@ def wire_rules(rep, mod, repo, leaf, roots, family):
             rep.inst('R-COUNT16', fn, side + ':count-is-used-unsigned', not bad, (bad[0].get('where') if bad else where),
                      None if not bad else 'the element count that bounds this loop is sign-extended (read into a signed 16 bit '
                      'variable): containers with 32768..65535 elements yield a negative trip count', fact=len(loops))
+        # the same for a count that sizes a block transfer (the characters of a string, the bytes of a buffer)
+        for side, gs in (('writer', gw), ('reader', gr)):
+            blocks = [t for g in gs for t in g.flat if isinstance(t.get('len'), tuple)]
+            bad = [t for t in blocks if signed_use(t['len'])]
+            if blocks:
+                rep.inst('R-COUNT16', fn, side + ':block-length-is-used-unsigned', not bad, (bad[0].get('where') if bad else where),
+                         None if not bad else 'the length that sizes this block transfer is sign-extended (the 16-bit count was read '
+                         'into a signed variable): strings / buffers of 32768..65535 bytes get a negative length', fact=len(blocks))
         unknown = [t for g in gw + gr for t in all_loops(g.raw_tokens) if t['count'][0] == 'unknown-count']
         for t in unknown:
             raise AnalysisBroken('%s: loop at %s has no recognised trip count' % (fn, t.get('where')))
